@@ -246,6 +246,9 @@ impl MessageStorage for MdkMemoryStorage {
             return Ok(None);
         };
 
+        // When several messages match, the newest one in display order is chosen, as in the
+        // SQLite backend (iteration order of the map is arbitrary).
+        let mut newest: Option<(u64, &Message)> = None;
         for (epoch, message) in group_messages
             .values()
             .filter_map(|message| message.epoch.map(|epoch| (epoch, message)))
@@ -254,12 +257,14 @@ impl MessageStorage for MdkMemoryStorage {
                 MessageError::DatabaseError(format!("Failed to serialize tags: {e}"))
             })?;
 
-            if tags_json.contains(content_substring) {
-                return Ok(Some(epoch));
+            if tags_json.contains(content_substring)
+                && newest.is_none_or(|(_, best)| message.display_order_cmp(best).is_gt())
+            {
+                newest = Some((epoch, message));
             }
         }
 
-        Ok(None)
+        Ok(newest.map(|(epoch, _)| epoch))
     }
 }
 
